@@ -14,6 +14,8 @@ import re
 import pk
 
 FIELDS = {
+    "C11": ["tags"],
+    "C12": [],
     "C06": ["tags", "upd", "rst", "add", "all", "next"],
     "C09": ["queue", "merge", "tag", "convert", "unm", "toconv", "nrec"],
     "C10": ["idx", "files", "next", "pcaps"],
@@ -317,3 +319,78 @@ def classify(prop, shrunk_ops, complaints, sc, known):
             if ops_ok and re.search(m.get("complaint", "$^"), text):
                 return k
     return None
+
+
+def stage(rep, prop, tier, seed, gen_args=(), nsc=None, nops=None, label="scheduled"):
+    """run the scenario harness as an additional stage of another property's check (C11: tag graph under
+    scheduled job completions; C12: crash/restart experiments): oracle complaints of `prop` become
+    violations of `rep`, model/implementation differences on FIELDS[prop] are searched / reported."""
+    thorough = tier == "thorough"
+    binpath, blog = pk.go_build("mgr")
+    if binpath is None:
+        rep.replay({"broken": "correspondence %s (%s stage): scenario harness does not build against /repo's working tree" % (prop, label),
+                    "log": blog[-3000:]}, no_input=True)
+        return
+    fields = FIELDS[prop]
+    if nsc is None:
+        nsc, nops = (100, 60) if not thorough else (1200, 80)
+    scenarios = []
+    for p in sorted(glob.glob(os.path.join(pk.VERIF, "corpus", "mgr", "*.sc")) +
+                    glob.glob(os.path.join(pk.VERIF, "corpus", prop, "*.sc"))):
+        scenarios.append(Scenario("corpus:" + os.path.basename(p),
+                                  [l for l in open(p).read().split("\n") if l and not l.startswith("#")]))
+    for i in range(nsc):
+        sd = seed * 1000003 + 77 + i
+        rc, o, e = pk.sh([binpath, "gen", "-seed", str(sd), "-n", str(nops)] + list(gen_args), env=pk.goenv(), timeout=60)
+        scenarios.append(Scenario("seed:%d" % sd, [l for l in o.split("\n") if l]))
+
+    def work(sc):
+        run_impl(binpath, sc)
+        return run_model(sc, fields) if fields else sc
+
+    with concurrent.futures.ThreadPoolExecutor(max_workers=min(12, os.cpu_count() or 4)) as ex:
+        scenarios = list(ex.map(work, scenarios))
+    known = pk.known_findings(prop)
+    st = collections.Counter()
+    events = 0
+    fails, diffs = [], []
+    for sc in scenarios:
+        stats_of(sc, st)
+        events += len(sc.lines)
+        for l in sc.lines:
+            if l.get("ev", {}).get("op") == "crashcheck":
+                st["crashcheck"] += 1
+                if l["ev"].get("cut"):
+                    st["crashcheck-with-cut-file"] += 1
+        if complaints_for(sc, prop) or sc.error:
+            fails.append(sc)
+        elif sc.diff is not None:
+            diffs.append(sc)
+
+    def failing(ops):
+        s = run_impl(binpath, Scenario("shrink", ops))
+        return bool(complaints_for(s, prop)) or s.error is not None
+
+    reported = set()
+    for sc in fails[:4]:
+        shrunk = pk.ddmin(list(sc.ops), failing, budget=150)
+        s2 = run_impl(binpath, Scenario("shrunk", shrunk))
+        comp = complaints_for(s2, prop)
+        k = classify(prop, shrunk, comp, s2, known)
+        if k:
+            rep.known_finding(k["text"])
+            continue
+        sig = pk.sha(re.sub(r"\d+", "N", (comp[0] if comp else str(s2.error))))
+        if sig in reported:
+            continue
+        reported.add(sig)
+        rep.replay({"kind": "oracle", "stage": label, "harness": "mgr", "case": sc.name, "ops": shrunk, "complaints": comp[:10],
+                    "error": s2.error, "stderr": s2.stderr[-1500:] if s2.error else ""})
+    if diffs and not rep.violations:
+        sc = diffs[0]
+        rep.replay({"broken": "correspondence %s (%s stage: service-loop model vs real manager, fields %s) no longer checks" % (prop, label, fields),
+                    "ops": sc.ops, "first_difference_event": sc.diff[0], "field": sc.diff[1], "impl": sc.diff[2], "model": sc.diff[3]},
+                   no_input=True)
+    rep.coverage[label + "_stage"] = {"scenarios": len(scenarios), "events": events, "event_mix": dict(st),
+                                      "oracle_failures": len(fails), "model_impl_differences": len(diffs)}
+    rep.coverage["evaluations"] = rep.coverage.get("evaluations", 0) + events
